@@ -203,7 +203,7 @@ func (s *state) walk(node ast.Node) {
 				s.js(",")
 			}
 			first = false
-			s.js("\"", k, "\"", ":")
+			s.js("\"", template.JSEscapeString(k), "\"", ":")
 			s.walk(node.Items[k])
 		}
 		s.js("}")
